@@ -153,6 +153,23 @@ def gen_docs(rng, W, tier_thorough, shard, nshards):
     n = 400 if tier_thorough else 40
     for _ in range(n):
         docs.append(("random", docgen.rand_link(rng, 0.9) if rng.random() < 0.6 else docgen.rand_layout(rng, W, 0.9)))
+    # texts of a layout that do not read back member for member (a key entry without its `keyid` / `private` members, the
+    # expiry with a numeric offset, a member the model does not know): whatever text the builder is fed with, what is signed
+    # is the reference encoding of the metadata the resulting block holds
+    for _ in range(n // 2):
+        d = docgen.rand_layout(rng, W, 0.3)
+        for kid, k in d["keys"].items():
+            r = rng.random()
+            if r < 0.4:
+                k.pop("keyid", None)
+            elif r < 0.7 and "private" in k.get("keyval", {}):
+                del k["keyval"]["private"]
+        r = rng.random()
+        if r < 0.4 and d["expires"].endswith("Z"):
+            d["expires"] = d["expires"][:-1] + "+00:00"
+        elif r < 0.7:
+            d["x-unknown-member"] = {"a": [1, 2]}
+        docs.append(("raw_variant", d))
     return docs
 
 
@@ -161,7 +178,9 @@ def shard_run(binpath, seed, sh, nshards, thorough):
     W = scen.World(binpath)
     res = common.Result()
     docs = gen_docs(rng, W, thorough, sh, nshards)
-    wires = scen.sign_all(binpath, [(d, ["ed0"], "new") for _, d in docs], nproc=1)
+    # every construction path signs the same bytes: also the builder fed with the caller's own text of the document
+    wires = scen.sign_all(binpath, [(d, ["ed0"], rng.choice(["raw_builder", "raw_builder_pretty"]) if f == "raw_variant" else
+                                     rng.choice(["new", "new", "builder", "raw_builder", "raw_builder_pretty"])) for f, d in docs], nproc=1)
     cases = []
     pub = W.pub("ed0")
     for (f, d), w in zip(docs, wires):
